@@ -94,6 +94,7 @@ pub fn scenario(r: &mut Report, p: &Params) {
     let mut trace_pos = 0usize;
     let mut counters = (0u64, 0u64, 0u64, 0u64, 0u64); // ping requests, refresh find_nodes, evictions seen, relearned, samples
     let mut restart_pending: Vec<(u64, usize)> = vec![];
+    let mut last_refresh: HashMap<SocketAddrV4, u64> = HashMap::new();
     let mut recent_checks = (0u64, 0u64); // (x, peer) pairs demanded present: small networks, big networks
     let mut next_sample = t0 + 30 * SEC;
     let mut violations_here = 0;
@@ -119,7 +120,22 @@ pub fn scenario(r: &mut Report, p: &Params) {
                             outstanding.insert((*from, *to, k.t.clone()), *t);
                             match k.q.as_deref() {
                                 Some("ping") => counters.0 += 1,
-                                Some("find_node") if k.target() == k.id() => counters.1 += 1,
+                                Some("find_node") if k.target() == k.id() => {
+                                    counters.1 += 1;
+                                    // refresh cadence of nodes that have a bootstrap list (populate() is a
+                                    // no-op for the first node): own-id lookups at most 15 min (+ slack) apart
+                                    if let Some(si) = slots.iter().position(|s| s.addr == *from && s.node.is_some()) {
+                                        if si != 0 {
+                                            if let Some(prev) = last_refresh.get(from) {
+                                                if *t > *prev + 15 * MIN + 45 * SEC && *prev >= slots[si].started_at {
+                                                    r.violation("health/refresh-overdue", "more than 15 minutes passed between two lookups of the node's own id (table refresh)", case.clone(), json!({"node": from.to_string(), "gap_s": (*t - *prev) / SEC, "uptime_min": (*t - slots[si].started_at) / MIN}));
+                                                    violations_here += 1;
+                                                }
+                                            }
+                                            last_refresh.insert(*from, *t);
+                                        }
+                                    }
+                                }
                                 _ => {}
                             }
                         }
@@ -297,8 +313,24 @@ pub fn scenario(r: &mut Report, p: &Params) {
             let i = *rng.pick(&live);
             let a = slots[i].node.as_ref().expect("live").adht.clone();
             let t = Id::from(rng.array::<20>());
-            w.block_on(async move { drop(a.get_closest_nodes(t).await) }, 60 * SEC);
+            if rng.bool() {
+                w.block_on(async move { drop(a.get_closest_nodes(t).await) }, 60 * SEC);
+            } else {
+                w.block_on(async move { drop(a.find_node(t).await) }, 60 * SEC);
+                r.count("api_find_node_lookups");
+            }
             r.count("api_lookups");
+        }
+    }
+    let t_end = w.now();
+    for (si, sl) in slots.iter().enumerate() {
+        if si == 0 || sl.node.is_none() || t_end < sl.started_at + 17 * MIN {
+            continue;
+        }
+        let lastr = last_refresh.get(&sl.addr).copied().filter(|t| *t >= sl.started_at);
+        r.count("refresh_cadence_checks");
+        if lastr.map(|t| t_end > t + 15 * MIN + 45 * SEC).unwrap_or(true) {
+            r.violation("health/refresh-overdue", "more than 15 minutes passed without a lookup of the node's own id (table refresh)", case.clone(), json!({"node": sl.addr.to_string(), "last_refresh_ago_s": lastr.map(|t| (t_end - t) / SEC), "uptime_min": (t_end - sl.started_at) / MIN}));
         }
     }
     r.add("ping_requests", counters.0);
